@@ -1131,7 +1131,16 @@ def check_allclose(case, ctx):
         kw["atol"] = _pq(atol)
     got = _helper(cu, "allclose", case["via"])(_build_form(form, a), _build_form(form, b), **kw)
     if bool(got) != expected:
-        ctx.fail("allclose", got=repr(got), expected=expected)
+        # signature of known finding C09-allclose-plain-vs-scaled-dimensionless: a pair made of a plain number and a
+        # quantity that is dimensionless by cancellation with a unit factor != 1 (e.g. 1.0 vs 1000 mA/A)
+        def _plain(q):
+            return not q["units"]
+
+        def _scaled_dimensionless(q):
+            return bool(q["units"]) and not any(G.dim(q["units"])) and G.factor(q["units"]) != 1
+        mixed = any((_plain(qa) and _scaled_dimensionless(qb)) or (_plain(qb) and _scaled_dimensionless(qa))
+                    for qa, qb in zip(a, b))
+        ctx.fail("allclose", got=repr(bool(got)), expected=expected, plain_vs_scaled_dimensionless=mixed)
 
 
 @st.composite
